@@ -496,7 +496,24 @@ func c12Overlap(r *Runner, del Op, park int, during []Op, labels map[string]bool
 			if !admissible {
 				break
 			}
-			if m := r.Step(op); m != "" {
+			// The held cascade may sit inside VUnlink with that edge's writer lock taken (writers of one edge are
+			// serialised from journal to apply). A window op that needs the same lock shard queues behind it - that
+			// is the engine serialising two writers, not a hang: the cascade is released and the op awaited.
+			stepDone := make(chan string, 1)
+			go func(op Op) { stepDone <- r.Step(op) }(op)
+			var m string
+			select {
+			case m = <-stepDone:
+			case <-time.After(200 * time.Millisecond):
+				labels["window-op-queued-behind-the-held-cascade"] = true
+				doRelease()
+				select {
+				case m = <-stepDone:
+				case <-time.After(2 * time.Minute):
+					return fmt.Sprintf("VDelete(%s), cascade held at %s, then %s(%s,%s): the call did not return within 2 min after the cascade was released", x, at, op.K, op.ID, op.ID2), used
+				}
+			}
+			if m != "" {
 				return fmt.Sprintf("VDelete(%s), cascade held at %s, then %s(%s,%s): %s", x, at, op.K, op.ID, op.ID2, m), used
 			}
 			used++
